@@ -464,6 +464,29 @@ Proof.
   intros s. rewrite G. reflexivity.
 Qed.
 
+Lemma declared_length_value all env sl : declared_length all env = Ok sl ->
+  has_param Nsection_length all = true /\ prop_get Nsection_length env = Some (PUint sl).
+Proof.
+  unfold declared_length. destruct (has_param Nsection_length all); [|discriminate].
+  destruct (prop_get Nsection_length env) as [[z| | | | |]|]; try discriminate.
+  intros E; injection E as <-. auto.
+Qed.
+
+(* C04 decode_overrun_error: a declared length shorter than the content *)
+Theorem decode_overrun_error : forall (decode_data : list (pname * pvalue) -> reader -> result (bits * reader))
+    c props r env props1 r1 sl,
+  decode_params decode_data (s_params c) (s_params c) (length r) [] props r = Ok (env, props1, r1) ->
+  declared_length (s_params c) env = Ok sl ->
+  (sl * 8 < Z.of_nat (length r - length r1))%Z ->
+  decode_section decode_data c props r = Err ELib.
+Proof.
+  intros decode_data c props r env props1 r1 sl Hp Hsl Hlt. unfold decode_section. rewrite Hp. cbn [bind].
+  destruct (declared_length_value _ _ _ Hsl) as [Hhas _]. rewrite Hhas, Hsl. cbn [bind].
+  destruct (Z.ltb_spec 0 (sl * 8 - Z.of_nat (length r - length r1))); [lia|].
+  destruct (Z.ltb_spec (sl * 8 - Z.of_nat (length r - length r1)) 0); [reflexivity|lia].
+Qed.
+
+
 Local Ltac sub_same :=
   match goal with |- context [(?a + ?b - (?c + ?b))%nat] =>
     replace (a + b - (c + b))%nat with (a - c)%nat by lia end; reflexivity.
@@ -527,13 +550,7 @@ Proof.
     intros s. specialize (Gv s). cbv zeta in Gv |- *. rewrite Gv. cbn [bind]. rewrite Hc. cbn [bind]. apply G.
 Qed.
 
-Lemma declared_length_value all env sl : declared_length all env = Ok sl ->
-  has_param Nsection_length all = true /\ prop_get Nsection_length env = Some (PUint sl).
-Proof.
-  unfold declared_length. destruct (has_param Nsection_length all); [|discriminate].
-  destruct (prop_get Nsection_length env) as [[z| | | | |]|]; try discriminate.
-  intros E; injection E as <-. auto.
-Qed.
+
 
 (* everything decode_section does, in one statement: it consumes a prefix e of
    the reader, the section's extent is |e|, a section with a declared length
@@ -618,19 +635,6 @@ Proof.
       rewrite skipn_length. rewrite E1, app_length in *. lia.
   - destruct (Z.ltb_spec (sl * 8 - Z.of_nat (length r - length r1)) 0); [lia|]. cbn [bind].
     eexists. eexists. split; [reflexivity|]. cbn [sec_nbits]. lia.
-Qed.
-
-(* C04 decode_overrun_error: a declared length shorter than the content *)
-Theorem decode_overrun_error : forall c props r env props1 r1 sl,
-  decode_params decode_data (s_params c) (s_params c) (length r) [] props r = Ok (env, props1, r1) ->
-  declared_length (s_params c) env = Ok sl ->
-  (sl * 8 < Z.of_nat (length r - length r1))%Z ->
-  decode_section decode_data c props r = Err ELib.
-Proof.
-  intros c props r env props1 r1 sl Hp Hsl Hlt. unfold decode_section. rewrite Hp. cbn [bind].
-  destruct (declared_length_value _ _ _ Hsl) as [Hhas _]. rewrite Hhas, Hsl. cbn [bind].
-  destruct (Z.ltb_spec 0 (sl * 8 - Z.of_nat (length r - length r1))); [lia|].
-  destruct (Z.ltb_spec (sl * 8 - Z.of_nat (length r - length r1)) 0); [reflexivity|lia].
 Qed.
 
 End DecoderProofs.
